@@ -125,6 +125,16 @@ Theorem C06_tw_tails_add_up : forall meth X y t,
 Proof. exact tw_model_split2. Qed.
 Print Assumptions C06_tw_tails_add_up.
 
+(* the documented guards: interval thresholds must satisfy lower < upper (scalar and array form), tail and method names *)
+Theorem C06_interval_guard : forall lo hi : Q,
+  (gen_guard_interval (XFin lo) (XFin hi) = true <-> hi <= lo) /\ (gen_guard_interval_arr (XFin lo) (XFin hi) = true <-> hi <= lo).
+Proof. exact interval_guard_spec. Qed.
+Print Assumptions C06_interval_guard.
+Theorem C06_name_guards : forall s : string,
+  (gen_guard_tail s = None <-> s = "upper" \/ s = "lower") /\ (gen_guard_crps_method s = None <-> s = "ecdf" \/ s = "fair").
+Proof. exact (fun s => conj (tail_guard_spec s) (method_guard_spec s)). Qed.
+Print Assumptions C06_name_guards.
+
 (* ================================================================================================ *)
 (* 5. integrating the ensemble Brier score over all thresholds reproduces the matching CRPS           *)
 (* ================================================================================================ *)
